@@ -461,6 +461,9 @@ class Result:
 
     def finish(self, level="proof", checker_cmd="", trusted=None, extra_cov=None):
         wall = time.time() - self.t0
+        if level not in ("exploration", "fault_enumeration", "model_checking", "proof", "translation_validation", "other"):
+            self.extra["level_detail"] = level       # free-text refinement; the schema level stays "proof"
+            level = "proof"
         os.makedirs(os.path.join(VERIF, "evidence"), exist_ok=True)
         os.makedirs(os.path.join(VERIF, "replays"), exist_ok=True)
         cov = {
